@@ -187,10 +187,26 @@ DRV_CMD(vol_open, "vol.open") {
   return r;
 }
 
+// a forked case that was killed by the watchdog while a violating library wrote gigabytes leaves its out.vol behind
+// (every forked case has its own scratch root under $OP2DRV_SCRATCH); remove those before starting the next one
+static void purgeStaleOutputs() {
+  const char* base = getenv("OP2DRV_SCRATCH"); if (!base) return;
+  DIR* d = opendir(base); if (!d) return;
+  std::vector<std::string> roots;
+  while (dirent* e = readdir(d)) { std::string n = e->d_name; if (n.rfind("op2drv.", 0) == 0) roots.push_back(std::string(base) + "/" + n); }
+  closedir(d);
+  for (auto& r : roots) {
+    DIR* c = opendir(r.c_str()); if (!c) continue;
+    while (dirent* e = readdir(c)) { std::string n = e->d_name; if (n[0] == 'c') unlink((r + "/" + n + "/out.vol").c_str()); }
+    closedir(c);
+  }
+}
+
 // vol.big <preOut: '-'|content> <nameHex> <size> ...   (C20: members given by size only, as sparse files)
 DRV_CMD(vol_big, "vol.big") {
   const std::string& pre = need(a, 0);
   if ((a.size() - 1) % 2) throw BadOp();
+  purgeStaleOutputs();
   std::string dir = freshDir(); Cwd cwd(dir);
   std::vector<std::string> paths;
   for (std::size_t i = 1; i + 1 < a.size(); i += 2) {
